@@ -122,3 +122,62 @@ contract(
     order_axioms=True,
     props=('C05',),
 )
+
+
+# ---------------------------------------------------------------------------------------------
+# Third stage: the cost clause.  On a matrix that obeys the accumulated-cost recurrence for *some* point-cost function
+# (ghost function PCost, uninterpreted: the contract holds for every interpretation) with the penalty handed to
+# best_path, every link of the returned path is exact: the cell equals its point cost plus the value of the cell the
+# path came from (plus the penalty for a non-diagonal step).  By a one-line induction the cost accumulated along the
+# path, in the recurrence's own order of additions, is the value of each cell on it -- in particular of the corner.
+import z3 as _z3                                            # noqa: E402
+from dvc.contracts import spec as _spec                      # noqa: E402
+from dvc.vals import IntS as _IntS, Val as _Val              # noqa: E402
+from dvc.ops import zint as _zint                            # noqa: E402
+
+_PCostf = _z3.Function('PCost', _IntS, _IntS, _Val)
+_spec('PCost', z3=lambda ex, st, a, b: _PCostf(_zint(a), _zint(b)), doc='ghost point-cost function of a cost matrix (uninterpreted)')
+
+_RECUR = ('forall(lambda a, b: implies(1 <= a < paths.shape[0] and 1 <= b < paths.shape[1] and paths[a, b] < inf, '
+          'paths[a, b] == PCost(a, b) + min(paths[a - 1, b - 1], paths[a - 1, b] + penalty, paths[a, b - 1] + penalty)))')
+_CAME = ('(paths[{b}[0] + 1, {b}[1] + 1] if ({a}[0] - {b}[0] == 1 and {a}[1] - {b}[1] == 1) else paths[{b}[0] + 1, {b}[1] + 1] + penalty)')
+_LINK = 'paths[{a}[0] + 1, {a}[1] + 1] == PCost({a}[0] + 1, {a}[1] + 1) + ' + _CAME
+_cs = _copy.copy(_CT['dtw.best_path#wf'])
+_cs.name = 'dtw.best_path#cost'
+_cs.requires = list(_CT['dtw.best_path#wf'].requires) + [_RECUR]
+_cs.ensures = list(_CT['dtw.best_path#wf'].ensures) + [
+    'forall(lambda k: implies(0 <= k < len(result) - 1, %s))' % _LINK.format(a='result[k + 1]', b='result[k]'),
+    # the first cell hangs on the origin
+    'paths[1, 1] == PCost(1, 1) + paths[0, 0]',
+]
+_l0c = dict(_CT['dtw.best_path#wf'].loops[0])
+_l0c['inv'] = list(_l0c['inv']) + ['forall(lambda k: implies(0 <= k < len(p) - 1, %s))' % _LINK.format(a='p[k]', b='p[k + 1]')]
+_cs.loops = {0: _l0c}
+_cs.theories = ('ipair', 'nonneg', 'floatzero')
+_cs.props = ('C05',)
+_CT['dtw.best_path#cost'] = _cs
+
+
+# dtw.warping_path, cost clause (Euclidean inner distance, no penalty, no psi): with the point-cost function instantiated to
+# the inner distance of the two series, every link of the returned path is exact and the first cell hangs on the origin;
+# hence the cost accumulated along the path is W at every cell of the path, and W(r, c) = the reported distance at its end.
+# (With a penalty dtw.warping_path does not hand the penalty to best_path: KF-C05-2.  With the squared inner distance the
+#  traceback runs on square-rooted cells, whose first minimum need not be the first minimum of the cells.)
+def _wpath_cost_cases():
+    kw = dict(KW, inner_dist=('const', 'euclidean'), psi='none', max_length_diff='none', penalty='none')
+    return [dict(label='eu/nopsi/nopen', params={'kwargs': kw}, metric=1, psi='nopsi')]
+
+
+_wc = _copy.copy(_CT['dtw.warping_path'])
+_wc.name = 'dtw.warping_path#cost'
+_wc.cases = _wpath_cost_cases()
+_wc.callee_views = {'dtw.best_path': 'dtw.best_path#cost'}
+_wc.ghost_defs = {'PCost': 'forall(lambda a, b: PCost(a, b) == Cost(a - 1, b - 1))'}
+_WCELL = 'W({x}[0] + 1, {x}[1] + 1)'
+_wc.ensures = list(_CT['dtw.warping_path'].ensures) + [
+    'forall(lambda k: implies(0 <= k < len(result) - 1, %s == Cost(result[k + 1][0], result[k + 1][1]) + %s))'
+    % (_WCELL.format(x='result[k + 1]'), _WCELL.format(x='result[k]')),
+    'W(1, 1) == Cost(0, 0) + 0',
+]
+_wc.props = ('C05',)
+_CT['dtw.warping_path#cost'] = _wc
